@@ -85,6 +85,24 @@ HELPER_UNREADABLE = ("        def _abandoned():\n            if self._active_seg
 # the capture moved behind the asynchronous gap: the comparison is with what the slot holds *now*
 CAPTURE_INSIDE = [(NODE, DELIVER_HEAD, DELIVER_HEAD + "            fetcher = self._active_segment\n")]
 
+# ---- the Cancel handle (C04.14)
+IMPORT_TIME = "now = time.time\n"
+IMPORT_DATACLASS = "now = time.time\nfrom dataclasses import dataclass, field\n"
+CANCEL_INIT = "class Cancel:\n    def __init__(self, f):\n        self._f = f\n        self.active = True\n"
+CANCEL_DATACLASS = "@dataclass\nclass Cancel:\n    _f: object\n    active: bool = True\n"
+CANCEL_BODY = "        if self.active:\n            self.active = False\n            self._f(self)\n"
+CANCEL_BODY_LATE = "        if self.active:\n            self._f(self)\n            self.active = False\n"
+CANCEL_FILTER = "                                  if t[2] != cancel]"
+WITH_DATACLASS = [(NODE, IMPORT_TIME, IMPORT_DATACLASS)]
+# ---- the consumer re-enters the producer from inside write() (C04.15)
+ADVANCE_WRITE = ("        self._offset += len(desired_data)\n        self._size -= len(desired_data)\n"
+                 "        self._consumer.write(desired_data)\n")
+WRITE_ADVANCE = ("        self._consumer.write(desired_data)\n        self._offset += len(desired_data)\n"
+                 "        self._size -= len(desired_data)\n")
+RESUME_LATER = "        eventually(self._maybe_fetch_next)\n"
+RESUME_NOW = "        self._maybe_fetch_next()\n"
+RESUME_HEAD = "    def resumeProducing(self):\n        self._hungry = True\n"
+
 MUTANTS = [
     # ---- C04.1 isolation
     M("one-segmentation-per-node", NODE,
@@ -452,6 +470,53 @@ MUTANTS = [
               "            self._start_new_segment()\n")]),
     M("benign-fetch-failed-looks-at-the-active-fetcher", NODE, "        assert sf is self._active_segment\n",
       "        assert sf is self._active_segment and self._active_segment.segnum == sf.segnum\n", None),
+    # ---- C04.14 the cancelling handle is told apart from the handles of the other reads
+    M("cancel-handles-compare-by-value-and-notify-while-active", NODE, CANCEL_INIT, CANCEL_DATACLASS, "C04.14",       # seeded C04-E
+      edits=WITH_DATACLASS + [(NODE, CANCEL_BODY, CANCEL_BODY_LATE)]),
+    M("cancel-handles-explicit-eq-and-notify-while-active", NODE, CANCEL_INIT,
+      CANCEL_INIT + "\n    def __eq__(self, other):\n        return (self._f, self.active) == (other._f, other.active)\n",
+      "C04.14", edits=[(NODE, CANCEL_BODY, CANCEL_BODY_LATE)]),
+    M("cancel-handles-compare-only-the-callback", NODE, CANCEL_INIT,
+      "@dataclass\nclass Cancel:\n    _f: object\n    active: bool = field(default=True, compare=False)\n", "C04.14",
+      edits=WITH_DATACLASS),
+    M("cancel-handles-by-value-reactivated-before-notify", NODE, CANCEL_INIT, CANCEL_DATACLASS, "C04.14",
+      edits=WITH_DATACLASS + [(NODE, CANCEL_BODY, "        if self.active:\n            self.active = False\n            self.active = True\n"
+                               "            self._f(self)\n            self.active = False\n")]),
+    M("benign-cancel-handles-dataclass-cleared-before-notify", NODE, CANCEL_INIT, CANCEL_DATACLASS, None, edits=WITH_DATACLASS),
+    M("benign-cancel-handles-dataclass-without-eq", NODE, CANCEL_INIT, "@dataclass(eq=False)\nclass Cancel:\n    _f: object\n    active: bool = True\n",
+      None, edits=WITH_DATACLASS + [(NODE, CANCEL_BODY, CANCEL_BODY_LATE)]),
+    M("benign-cancel-handles-by-value-filter-by-identity", NODE, CANCEL_INIT, CANCEL_DATACLASS, None,
+      edits=WITH_DATACLASS + [(NODE, CANCEL_BODY, CANCEL_BODY_LATE), (NODE, CANCEL_FILTER, "                                  if t[2] is not cancel]")]),
+    M("benign-cancel-notifies-before-clearing", NODE, CANCEL_BODY, CANCEL_BODY_LATE, None),
+    M("benign-cancel-handles-eq-is-identity", NODE, CANCEL_INIT,
+      CANCEL_INIT + "\n    def __eq__(self, other):\n        return other is self\n\n    __hash__ = object.__hash__\n", None,
+      edits=[(NODE, CANCEL_BODY, CANCEL_BODY_LATE)]),
+    M("cancel-handles-unknown-class-decorator", NODE, CANCEL_INIT, "@comparable\n" + CANCEL_INIT, "ANALYSIS-ERROR",
+      edits=[(NODE, IMPORT_TIME, IMPORT_TIME + "def comparable(cls):\n    return cls\n")]),
+    # ---- C04.15 a consumer that resumes from inside write() must not make the read fetch from its old position
+    M("write-before-advance-and-resume-fetches-at-once", SEG, ADVANCE_WRITE, WRITE_ADVANCE, "C04.15",                # seeded C04-F
+      edits=[(SEG, RESUME_LATER, RESUME_NOW)]),
+    M("offset-advanced-after-write-and-resume-kicks-through-helper", SEG,
+      "        self._offset += len(desired_data)\n        self._size -= len(desired_data)\n        self._consumer.write(desired_data)\n",
+      "        self._size -= len(desired_data)\n        self._consumer.write(desired_data)\n        self._offset += len(desired_data)\n",
+      "C04.15", edits=[(SEG, RESUME_HEAD + RESUME_LATER, "    def _kick(self):\n        self._maybe_fetch_next()\n\n" + RESUME_HEAD + "        self._kick()\n")]),
+    M("write-before-advance-and-pause-fetches-before-closing-the-gate", SEG, ADVANCE_WRITE, WRITE_ADVANCE, "C04.15",
+      edits=[(SEG, "    def pauseProducing(self):\n        self._hungry = False\n",
+              "    def pauseProducing(self):\n        self._maybe_fetch_next()\n        self._hungry = False\n")]),
+    M("benign-write-before-advance-pause-pokes-the-closed-gate", SEG, ADVANCE_WRITE, WRITE_ADVANCE, None,
+      edits=[(SEG, "    def pauseProducing(self):\n        self._hungry = False\n",
+              "    def pauseProducing(self):\n        self._hungry = False\n        self._maybe_fetch_next()\n")]),
+    M("benign-write-before-advance", SEG, ADVANCE_WRITE, WRITE_ADVANCE, None),
+    M("benign-resume-fetches-at-once", SEG, RESUME_LATER, RESUME_NOW, None),
+    M("benign-write-before-advance-resume-at-once-behind-busy-flag", SEG, ADVANCE_WRITE,
+      "        self._writing = True\n" + WRITE_ADVANCE + "        self._writing = False\n", None,
+      edits=[(SEG, RESUME_LATER, RESUME_NOW),
+             (SEG, "        self._hungry = True\n        self._active_segnum = None\n",
+              "        self._hungry = True\n        self._writing = False\n        self._active_segnum = None\n"),
+             (SEG, "        if self._active_segnum is not None:\n            return\n",
+              "        if self._active_segnum is not None or self._writing:\n            return\n")]),
+    M("benign-write-before-advance-resume-at-once-next-turn-lambda", SEG, ADVANCE_WRITE, WRITE_ADVANCE, None,
+      edits=[(SEG, RESUME_LATER, "        eventually(lambda: self._maybe_fetch_next())\n")]),
     # ---- vanished anchor
     M("vanish-resume-producing", SEG, "    def resumeProducing(self):", "    def _resume_producing(self):", "ANALYSIS-ERROR"),
     M("vanish-get-num-segments", NODE, "    def get_num_segments(self):", "    def get_num_segments_(self):", "ANALYSIS-ERROR"),
